@@ -562,7 +562,7 @@ def features(case, model):
     if case['op'] == 'table':
         f.append('kd:' + case['kd'])
         f.extend(_table_features(case, model, ok, nk))
-    f.append('rows-old:%d' % (len(ok) if len(ok) < 8 else 8 * (len(ok) // 8)))
+    f.append('rows-old:' + _bucket(len(ok)))
     return f
 
 
